@@ -213,6 +213,14 @@ Sess1Next == steps < MaxSteps /\
   \/ \E how \in {"disconnect", "cut"} : End(c1, how)
   \/ ApiPublish(<<"a">>, 1, FALSE, "x")
 Sess1Spec == SessInit /\ [][Sess1Next]_vars
+\* longer histories of one client id (several connections of a persistent session, subscribing in one and unsubscribing
+\* in another), observed by one probe publish at the end
+Sess1Mut == \/ \E cl \in BOOLEAN : Connect(c1, k1, cl, NoWill)
+            \/ Subscribe(c1, 1, << <<<<"a">>, 1>> >>)
+            \/ Unsubscribe(c1, 2, << <<"a">> >>)
+            \/ \E how \in {"disconnect", "cut"} : End(c1, how)
+Sess1LastNext == steps < MaxSteps /\ IF steps < MaxSteps - 1 THEN Sess1Mut ELSE ApiPublish(<<"a">>, 1, FALSE, "x")
+Sess1LastSpec == SessInit /\ [][Sess1LastNext]_vars
 
 (* C11 first packets: every way of being refused, followed by packets on the refused connection;
    witness c2 subscribed to '#', afterwards a probe of the retained store                  *)
